@@ -31,6 +31,10 @@ def plan(tier):
         PG.reuse_in_callback(2, 3), PG.reuse_in_callback(2, 2), PG.resize_vs_callback_submit(1, 3),
         PG.map_partial(2, (5,), 3), PG.map_partial(1, (4,), 0),
         PG.idle_then_submit(1, 0.05, "ok"), PG.idle_then_submit(2, 0.05), PG.warm_then(1, 0.05, "await"),
+        # wake-ups of the manager that have a single cause and nothing else in flight (a task that
+        # fails to pickle, a future cancelled before dispatch), then ordinary work
+        PG.unsendable_one_by_one(2, 1), PG.unsendable_one_by_one(3, 2),
+        PG.mixed_failures(["bad_arg", "bad_arg"], 1), PG.cancel_then_work(1),
     ]
     pl = [(p, 1, dict(kinds=("P", "T", "K"))) for p in progs]
     # a worker taken down by any signal: the futures still resolve
@@ -50,7 +54,8 @@ def plan(tier):
             pl.append((p, 2, dict(kinds=("P", "K"))))
             pl.append((p, 2, dict(kinds=("T", "K"))))
             pl.append((p, 2, dict(kinds=("P", "T"))))
-        pl += [(PG.submit_vs_shutdown(1, True), 2, dict(kinds=("P",), starve="parent:user")),
+        pl += [(PG.unsendable_one_by_one(2, 1), 2, dict(kinds=("P",), p_scope="parent:")),
+               (PG.submit_vs_shutdown(1, True), 2, dict(kinds=("P",), starve="parent:user")),
                (PG.two_submitters(2, None), 2, dict(kinds=("P",)))]
     # source-line granularity (one preemption at any line of loky run by a parent thread)
     pl += simcheck.line_plan([PG.two_submitters(2, 0.05), PG.submit_vs_shutdown(1, True), PG.cancel_prog(1)])
